@@ -218,6 +218,16 @@ BAD_ARGS = [
     (["--crlf", "-F", "-e", "a" + chr(13) + "b", "-e", WORD], "raw-cr-among-several"),
     (["--null-data", "-e", "a\\x00b", "-e", WORD], "nul-among-several"),
 ]
+# command lines that are invalid because of what they do with standard input
+# (given WORD on stdin): patterns read from it twice, or patterns read from it
+# while it is also searched.  (args, kind, paths)
+BAD_STDIN_ARGS = [
+    (["-f", "-", "-f", "-"], "stdin-patterns-twice", ["."]),
+    (["-f", "-", "-e", "zeta", "--file=-"], "stdin-patterns-twice", ["."]),
+    (["-e", WORD, "-f", "-", "--file", "-"], "stdin-patterns-twice", ["."]),
+    (["-f", "-"], "stdin-patterns-and-searched", ["-"]),
+    (["-f", "-"], "stdin-patterns-and-searched", [".", "-"]),
+]
 
 
 def badarg_case(case, env):
@@ -240,6 +250,21 @@ def badarg_case(case, env):
                 env.viol("C15:invalid-%s" % kind,
                          "rg %s: status %d, %d bytes on stdout, stderr %s" % (" ".join(extra + args), r[0], len(r[1]), esc(r[2][:100])),
                          {"kind": "cli", "argv": extra + args, "status": r[0], "stdout": esc(r[1][:300]), "stderr": esc(r[2][:300])})
+    for args, kind, paths in BAD_STDIN_ARGS:
+        for extra in ([], ["-c"], ["-l"], ["--json"], ["-q"], ["-j4"], ["-j1", "--sort", "path"]):
+            rep["evaluations"] += 1
+            r = common.run_rg(["--no-config"] + extra + args + paths, root, env.home, uid=UID, stdin=(WORD + "\n").encode())
+            if r is None:
+                env.inconclusive("watchdog")
+                continue
+            env.count("rg_runs")
+            env.nontrivial((kind, tuple(args), tuple(extra), tuple(paths)))
+            if r[0] != 2 or r[1] != b"" or not r[2]:
+                env.viol("C15:invalid-%s" % kind,
+                         "printf '%s\\n' | rg %s: status %d, %d bytes on stdout, stderr %s"
+                         % (WORD, " ".join(extra + args + paths), r[0], len(r[1]), esc(r[2][:100])),
+                         {"kind": "cli", "argv": extra + args + paths, "stdin": WORD, "status": r[0],
+                          "stdout": esc(r[1][:300]), "stderr": esc(r[2][:300])})
 
 
 def pipe_run(argv, cwd, home, k):
